@@ -18,6 +18,8 @@ type Enum struct {
 	Name   string
 	Prefix string
 	Opts   []string
+	// descriptions of options, by option name (single line)
+	OptDesc map[string]string
 }
 
 // Field kinds: scalar objref objinline oneofref oneofinline enumref enuminline array map.
@@ -36,6 +38,7 @@ type Property struct {
 	Required bool
 	Optional bool
 	F        *Field
+	Desc     string // single-line description ("" = none)
 }
 
 // Nested kinds: object oneof enum.
@@ -45,6 +48,7 @@ type Nested struct {
 	Props []*Property
 	Subs  []*Nested
 	Enum  *Enum
+	Desc  string // single-line description of the declaration ("" = none)
 }
 
 type Method struct {
@@ -77,12 +81,13 @@ type Topic struct {
 	Reply  []*Tmsg
 }
 
-// Element kinds: object oneof enum service topic.
+// Element kinds: object oneof enum service topic entity.
 type Element struct {
 	Kind    string
 	N       *Nested
 	Service *Service
 	Topic   *Topic
+	Entity  *Entity
 }
 
 type Import struct {
